@@ -29,6 +29,9 @@ func HarnessC17Stall() {
 		s.stallAt = k
 	}
 	opts := []Option{WithTimeout(7 * time.Second)}
+	if svPick("without-noop", 2) == 1 {
+		opts = append(opts, WithoutNoop())
+	}
 	switch authMode {
 	case 1:
 		opts = append(opts, WithSMTPAuth(SMTPAuthPlainNoEnc), WithUsername("user"), WithPassword("secret"))
